@@ -16,7 +16,7 @@ import pandas as pd
 from vf import core, gen, pipe, symx
 
 ID = "C07"
-FORMULAS = ["y ~ center(x) + g", "y ~ C(k) + C(g) + x + (x + f|g)", "y ~ poly(x, 2, raw=True):f + scale(z)", "y ~ x + f + (1|g) + (f|h)", "y ~ shift(x) + g"]
+FORMULAS = ["y ~ center(x) + g", "y ~ C(k) + C(g) + x + (0 + f + C(k) + x|g)", "y ~ poly(x, 2, raw=True):f + scale(z)", "y ~ x + f + (1|g) + (f|h)", "y ~ shift(x) + g"]
 MODES = ["error", "silent", "warning"]
 
 
